@@ -30,8 +30,11 @@ Addresses are `Nat < 2^160`, words `Nat < 2^256`, bytes `List Nat`.
 
 keccak256 is not modelled here: `KECCAK256` asks the oracle (`HostOp.keccak data`) like a host question.
 
-EOF: the EOF-only opcodes are modelled in legacy mode (`EOFOpcodeDisabledInLegacy` / `ReturnContractInNotInitEOF`);
-their EOF-mode behaviour lives in `Model/InterpEof.lean` when present. -/
+EOF: in legacy mode the EOF-only opcodes stop the frame (`EOFOpcodeDisabledInLegacy` / `ReturnContractInNotInitEOF`).
+In EOF mode (`IState.initEof`) RJUMP, RJUMPI, RJUMPV, CALLF, RETF, JUMPF, DUPN, SWAPN, EXCHANGE, DATALOAD, DATALOADN,
+DATASIZE, DATACOPY, RETURNDATALOAD are modelled; EOFCREATE, RETURNCONTRACT, EXTCALL, EXTDELEGATECALL, EXTSTATICCALL are
+`fault .notModelled`, and the `not_eof` opcodes keep their legacy handlers (they cannot occur in validated code; CODESIZE /
+CODECOPY would be an `assume!` violation there). -/
 namespace Revm.Model.Interp
 open Revm
 open Revm.Model.GasCalc (enabled)
@@ -101,10 +104,13 @@ inductive Fault
   | oobStack
   /-- a `SharedMemory` slice outside the running context (`debug_unreachable!` / `get_unchecked`) -/
   | oobMemory
+  /-- the model does not cover this instruction in this mode (EOFCREATE, RETURNCONTRACT, EXT*CALL in EOF mode) -/
+  | notModelled
   deriving DecidableEq, Repr
 
 def Fault.name : Fault → String
   | .panic => "panic" | .oobCode => "oob-code" | .oobStack => "oob-stack" | .oobMemory => "oob-memory"
+  | .notModelled => "not-modelled"
 
 /-! ## state -/
 
@@ -137,6 +143,20 @@ def Env.effectiveGasPrice (e : Env) : Nat :=
   | some p => min e.gasPrice (U256.wadd e.basefee p)
   | none => e.gasPrice
 
+/-- the EOF container of the contract as the instructions read it (`contract.bytecode.eof()`: code sections,
+types section, data section, `header.data_size`) and `Interpreter::function_stack` -/
+structure EofCtx where
+  sections : List (List Nat)
+  /-- `(inputs, outputs, max_stack_size)` per code section -/
+  types : List (Nat × Nat × Nat)
+  data : List Nat
+  dataSize : Nat
+  /-- `function_stack.current_code_idx` -/
+  curIdx : Nat := 0
+  /-- `function_stack.return_stack` as `(idx, pc)`, head = top -/
+  retStack : List (Nat × Nat) := []
+  deriving Repr
+
 /-- `struct Interpreter` (+ the `Contract` fields the instructions read) -/
 structure IState where
   /-- `Interpreter::bytecode` -/
@@ -163,6 +183,8 @@ structure IState where
   caller : Nat
   callValue : Nat
   env : Env
+  /-- `Some` iff the contract's bytecode is `Bytecode::Eof` -/
+  eof : Option EofCtx := none
 
 /-- `Interpreter::new(Contract::new(input, Bytecode::new_legacy(code), ..), gas_limit, is_static)` followed by
 `run(shared_memory, ..)` with the given memory -/
@@ -173,6 +195,16 @@ def IState.init (code input : List Nat) (gasLimit : Nat) (isStatic : Bool) (spec
     mem := mem, gas := Gas.new gasLimit, returnData := [], input := input, isStatic := isStatic,
     isEof := false, isEofInit := false, spec := spec, target := target, caller := caller,
     callValue := callValue, env := env }
+
+/-- `Interpreter::new` on a contract whose bytecode is an EOF container: `is_eof`, the running code is section 0
+(not padded), no jump table -/
+def IState.initEof (ctx : EofCtx) (input : List Nat) (gasLimit : Nat) (isStatic : Bool) (spec : Nat)
+    (target caller callValue : Nat) (env : Env) (mem : Memory.SharedMemory := Memory.new) : IState :=
+  let code := ctx.sections.headD []
+  { code := code, origLen := code.length, jumpTable := [], pc := 0, stack := [],
+    mem := mem, gas := Gas.new gasLimit, returnData := [], input := input, isStatic := isStatic,
+    isEof := true, isEofInit := false, spec := spec, target := target, caller := caller,
+    callValue := callValue, env := env, eof := some { ctx with curIdx := 0, retStack := [] } }
 
 /-! ## host questions, actions -/
 
@@ -505,8 +537,11 @@ handlers (`gas!; pop_top!; *top = f(..)`) are `unop` / `binop` / `terop` with th
 word function; the `gas!; push!(value)` handlers are `pushVal`. -/
 inductive Instr
   | stop | invalid | unknown
-  /-- an EOF-only opcode (`require_eof!` first) -/
+  /-- an EOF-only opcode whose EOF-mode behaviour is not modelled (`require_eof!` first): EOFCREATE, EXTCALL,
+  EXTDELEGATECALL, EXTSTATICCALL -/
   | eofOnly
+  | rjump | rjumpi | rjumpv | callf | retf | jumpf | dupn | swapn | exchange
+  | dataload | dataloadn | datasize | datacopy | returndataload
   /-- RETURNCONTRACT (`require_init_eof!` first) -/
   | returnContract
   | unop (gas : Tier) (f : Nat → Nat)
@@ -728,14 +763,215 @@ def revertI : M Unit := do
   check GasCalc.SpecId.BYZANTIUM
   returnInner .Revert
 
+/-! ### EOF instructions (`control.rs`, `stack.rs`, `data.rs`, `system.rs::returndataload`)
+
+Relative jumps move the pointer by an immediate; nothing in the interpreter checks the result (validation does).
+A pointer moved before the buffer is `fault .oobCode` at once, a pointer moved behind it at the next fetch. -/
+
+/-- `*instruction_pointer.add(off)` -/
+def codeByte (off : Nat) : M Nat := fun s =>
+  match s.code[s.pc + off]? with
+  | some b => .ok b s
+  | none => .fault .oobCode
+
+/-- `read_u16(instruction_pointer.add(off))` -/
+def readU16 (off : Nat) : M Nat := do
+  let a ← codeByte off
+  let b ← codeByte (off + 1)
+  pure (a * 256 + b)
+
+/-- `read_i16` -/
+def readI16 (off : Nat) : M Int := do
+  let v ← readU16 off
+  pure (if v ≥ 32768 then (v : Int) - 65536 else (v : Int))
+
+/-- `instruction_pointer = instruction_pointer.offset(d)` -/
+def jumpRel (d : Int) : M Unit := fun s =>
+  let t := (s.pc : Int) + d
+  if t < 0 then .fault .oobCode else .ok () { s with pc := t.toNat }
+
+/-- `interpreter.eof().expect("eof")` -/
+def getEof : M EofCtx := fun s =>
+  match s.eof with
+  | some c => .ok c s
+  | none => .fault .panic
+
+/-- `Interpreter::load_eof_code(idx, pc)` -/
+def loadEofCode (idx pc : Nat) : M Unit := fun s =>
+  match s.eof with
+  | none => .fault .panic
+  | some c =>
+    match c.sections[idx]? with
+    | none => .fault .panic
+    | some code => .ok () { s with code := code, origLen := code.length, pc := pc }
+
+def setEof (f : EofCtx → EofCtx) : M Unit := modifyS fun s => { s with eof := s.eof.map f }
+
+/-- `as_isize_saturated!` -/
+def asIsizeSat (v : Nat) : Nat := min (U256.asU64Sat v) (2^63 - 1)
+
+def rjumpI : M Unit := do
+  requireEof
+  gasCharge GasCalc.BASE
+  let d ← readI16 0
+  jumpRel (d + 2)
+
+def rjumpiI : M Unit := do
+  requireEof
+  gasCharge GasCalc.CONDITION_JUMP_GAS
+  let c ← pop1
+  if c ≠ 0 then do
+    let d ← readI16 0
+    jumpRel (2 + d)
+  else jumpRel 2
+
+def rjumpvI : M Unit := do
+  requireEof
+  gasCharge GasCalc.CONDITION_JUMP_GAS
+  let c ← pop1
+  let case := asIsizeSat c
+  let maxIndex ← codeByte 0
+  let offset : Int := ((maxIndex + 1) * 2 + 1 : Nat)
+  if case ≤ maxIndex then do
+    let d ← readI16 (1 + case * 2)
+    jumpRel (offset + d)
+  else jumpRel offset
+
+/-- `stack.len() + (types.max_stack_size - types.inputs as u16) as usize > 1024` (`u16` subtraction, release: wraps) -/
+def calleeOverflows (stackLen : Nat) (t : Nat × Nat × Nat) : Bool :=
+  decide (stackLen + (t.2.2 + 65536 - t.1) % 65536 > 1024)
+
+def callfI : M Unit := do
+  requireEof
+  gasCharge GasCalc.LOW
+  let idx ← readU16 0
+  let c ← getEof
+  if c.retStack.length ≥ 1024 then haltWith .EOFFunctionStackOverflow else
+  match c.types[idx]? with
+  | none => faultWith .panic
+  | some t => do
+    let s ← getS
+    if calleeOverflows s.stack.length t then haltWith .StackOverflow else do
+    setEof fun c => { c with retStack := (c.curIdx, s.pc + 2) :: c.retStack, curIdx := idx }
+    loadEofCode idx 0
+
+def retfI : M Unit := do
+  requireEof
+  gasCharge GasCalc.RETF_GAS
+  let c ← getEof
+  match c.retStack with
+  | [] => faultWith .panic
+  | (idx, pc) :: rest => do
+    setEof fun c => { c with retStack := rest, curIdx := idx }
+    loadEofCode idx pc
+
+def jumpfI : M Unit := do
+  requireEof
+  gasCharge GasCalc.LOW
+  let idx ← readU16 0
+  let c ← getEof
+  match c.types[idx]? with
+  | none => faultWith .panic
+  | some t => do
+    let s ← getS
+    if calleeOverflows s.stack.length t then haltWith .StackOverflow else do
+    setEof fun c => { c with curIdx := idx }
+    loadEofCode idx 0
+
+/-- `if let Err(r) = stack.f(..) { result = r }; instruction_pointer += n` (the pointer moves in both cases) -/
+def stackCallAdv (f : List Nat → List Nat × Stack.Res Unit) (n : Nat) : M Unit := fun s =>
+  match f s.stack with
+  | (d, .ok _) => .ok () { s with stack := d, pc := s.pc + n }
+  | (_, .err e) => .halt (stackErr e) [] { s with pc := s.pc + n }
+  | (_, _) => .fault .oobStack
+
+def dupnI : M Unit := do
+  requireEof
+  gasCharge GasCalc.VERYLOW
+  let imm ← codeByte 0
+  stackCallAdv (fun d => Stack.dup d (imm + 1)) 1
+
+def swapnI : M Unit := do
+  requireEof
+  gasCharge GasCalc.VERYLOW
+  let imm ← codeByte 0
+  stackCallAdv (fun d => Stack.swap d (imm + 1)) 1
+
+def exchangeI : M Unit := do
+  requireEof
+  gasCharge GasCalc.VERYLOW
+  let imm ← codeByte 0
+  stackCallAdv (fun d => Stack.exchange d (imm / 16 + 1) (imm % 16 + 1)) 1
+
+/-- `Eof::data_slice(offset, len)` -/
+def dataSlice (data : List Nat) (offset len : Nat) : List Nat :=
+  if offset ≤ data.length then (data.drop offset).take (min len (data.length - offset)) else []
+
+def dataloadI : M Unit := do
+  requireEof
+  gasCharge GasCalc.DATA_LOAD_GAS
+  let off ← popTop1
+  let c ← getEof
+  setTop (wordOfBytesPadded (dataSlice c.data (asUsizeSat off) 32))
+
+def dataloadnI : M Unit := do
+  requireEof
+  gasCharge GasCalc.VERYLOW
+  let off ← readU16 0
+  let c ← getEof
+  push (wordOfBytesPadded (dataSlice c.data off 32))
+  advancePc 2
+
+def datasizeI : M Unit := do
+  requireEof
+  gasCharge GasCalc.BASE
+  let c ← getEof
+  push c.dataSize
+
+def datacopyI : M Unit := do
+  requireEof
+  gasCharge GasCalc.VERYLOW
+  let (memOff, off, size) ← pop3
+  let size ← asUsizeOrFail size
+  if size = 0 then pure () else do
+    let memOff ← asUsizeOrFail memOff
+    resizeMem memOff size
+    gasOrFail (GasCalc.costPerWord size GasCalc.VERYLOW)
+    let c ← getEof
+    memSetData memOff (asUsizeSat off) size c.data
+
+def returndataloadI : M Unit := do
+  requireEof
+  gasCharge GasCalc.VERYLOW
+  let off ← popTop1
+  let s ← getS
+  let o := asUsizeSat off
+  setTop (if o ≤ s.returnData.length then
+      wordOfBytesPadded ((s.returnData.drop o).take (min (s.returnData.length - o) 32))
+    else 0)
+
 /-- the pure instructions -/
 def execPure : Instr → Option (M Unit)
   | .stop => some (haltWith .Stop)
   | .invalid => some (haltWith .InvalidFEOpcode)
   | .unknown => some (haltWith .OpcodeNotFound)
-  | .eofOnly => some (do requireEof; faultWith .panic)
+  | .eofOnly => some (do requireEof; faultWith .notModelled)
   | .returnContract => some (fun s =>
-      if !s.isEofInit then .halt .ReturnContractInNotInitEOF [] s else .fault .panic)
+      if !s.isEofInit then .halt .ReturnContractInNotInitEOF [] s else .fault .notModelled)
+  | .rjump => some rjumpI
+  | .rjumpi => some rjumpiI
+  | .rjumpv => some rjumpvI
+  | .callf => some callfI
+  | .retf => some retfI
+  | .jumpf => some jumpfI
+  | .dupn => some dupnI
+  | .swapn => some swapnI
+  | .exchange => some exchangeI
+  | .dataload => some dataloadI
+  | .dataloadn => some dataloadnI
+  | .datasize => some datasizeI
+  | .datacopy => some datacopyI
+  | .returndataload => some returndataloadI
   | .unop g f => some (unopI g.cost f)
   | .binop g k f => some (binopI g.cost k f)
   | .terop g f => some (teropI g.cost f)
@@ -1208,8 +1444,19 @@ def decode (op : Nat) : Instr :=
   else if h : 0x80 ≤ op ∧ op ≤ 0x8f then .dup ⟨op - 0x80, by omega⟩
   else if h : 0x90 ≤ op ∧ op ≤ 0x9f then .swap ⟨op - 0x90, by omega⟩
   else if h : 0xa0 ≤ op ∧ op ≤ 0xa4 then .log ⟨op - 0xa0, by omega⟩
-  else if 0xd0 ≤ op ∧ op ≤ 0xd3 then .eofOnly
-  else if 0xe0 ≤ op ∧ op ≤ 0xe8 then .eofOnly
+  else if op = 0xd0 then .dataload
+  else if op = 0xd1 then .dataloadn
+  else if op = 0xd2 then .datasize
+  else if op = 0xd3 then .datacopy
+  else if op = 0xe0 then .rjump
+  else if op = 0xe1 then .rjumpi
+  else if op = 0xe2 then .rjumpv
+  else if op = 0xe3 then .callf
+  else if op = 0xe4 then .retf
+  else if op = 0xe5 then .jumpf
+  else if op = 0xe6 then .dupn
+  else if op = 0xe7 then .swapn
+  else if op = 0xe8 then .exchange
   else if op = 0xec then .eofOnly
   else if op = 0xee then .returnContract
   else if op = 0xf0 then .create false
@@ -1218,7 +1465,8 @@ def decode (op : Nat) : Instr :=
   else if op = 0xf3 then .ret
   else if op = 0xf4 then .delegatecall
   else if op = 0xf5 then .create true
-  else if 0xf7 ≤ op ∧ op ≤ 0xf9 then .eofOnly
+  else if op = 0xf7 then .returndataload
+  else if 0xf8 ≤ op ∧ op ≤ 0xf9 then .eofOnly
   else if op = 0xfa then .staticcall
   else if op = 0xfb then .eofOnly
   else if op = 0xfd then .revert
